@@ -19,6 +19,13 @@ RULE = (
     "compositions and order, context events) it produces on a fresh scheduler. "
     "distinct = (program hash, fault config); non-trivial = the computation ended with an exception or tripped the guard."
 )
+RULE += (
+    " The runaway tasks yield the recursive call alone, after a batch item, after a lazy future, or inside a "
+    "dict with constants. A structured family fails a task from outside while it is suspended (an inner "
+    "context cannot be re-activated) and makes its body raise once more while its generator is closed (an "
+    "outer context's pause() failing in __exit__). Bodies that keep executing inside generator.close() of a "
+    "task that already has its outcome are counted, not judged."
+)
 ASSUMPTIONS = [
     "BaseException failures are outside the statement ('any Exception') and are not injected here",
     "after the runaway-recursion guard has tripped inside a nested sync call, get_active_task() is only checked again once the computation has ended",
